@@ -301,6 +301,12 @@ E2E_INNER = ["hx_select_e2e::sel::alpha", "hx_select_e2e::sel::alpha::beta", "hx
 E2E_WORDS = ["top", "a", "b", "alpha", "beta", "Grp", "grp", "sub", "1", "10", "i32", "u8", "loop", "type", "renamed", "orig", "x",
              "with_args", "args", "gen", "sel", "opt", "inherit", "zzz", "no_args",
              "u8, u8", "(1, 2)", "a,b", "a, b", "x, y", ", ", ",", "Pair<u8, i8>", "1, 2", "y"]
+# legitimate paths / fragments that are not valid regexes: only meaningful with --exact (or skip_exact)
+E2E_NOT_REGEX = ["hx_select_e2e::sel::tok(", "hx_select_e2e::sel::[", "hx_select_e2e::sel::C:\\dir", "[", "tok(", "C:\\dir", "(", "a\\",
+                 "hx_select_e2e::sel::tuple::(1,", "*", "+x", "x{2", "(?", "[a-"]
+# inline flags: unscoped `(?i)` / `(?x)` belong to the one pattern they are written in
+E2E_INLINE = ["(?i)STRING", "(?i)GRP", "(?i)ALPHA", "(?i)hx_select_e2e::SEL::top", "(?i)pair", "(?x)alpha # beta", "(?x) top",
+              "(?i)I32", "(?s)a.b", "(?i)LOOP", "(?x)gen_ty #", "(?i:TYPE)"]
 E2E_DEGENERATE = ["", "", "^", "$", ".*", "^$", "hx_select_e2e::sel::top", "hx_select_e2e"]
 E2E_REGEX = ["::a$", "^hx_select_e2e::sel::[a-z]+$", "::[0-9]+$", "alpha|Grp", "top$", "(i32|u8)::", "::b::", "^sel", "sel::.*::a", "r#",
              "gen_(ty|const)", "::1", "::1$", "beta::[ab]$", "[A-Z]", ".", "^$", "e2e::sel::t"]
@@ -317,6 +323,10 @@ def gen_e2e(rng, k):
             # the empty string and other degenerate patterns: as a regex they match every path (a positive one
             # narrows nothing, a skip deselects everything); exact, they match no path (or exactly one)
             return rng.choice(E2E_DEGENERATE)
+        if is_exact and rng.random() < 0.15:
+            return rng.choice(E2E_NOT_REGEX)
+        if not is_exact and rng.random() < 0.15:
+            return rng.choice(E2E_INLINE)
         if is_exact:
             return rng.choice(E2E_CASES) if r < 0.6 else rng.choice(E2E_INNER) if r < 0.85 else rng.choice(E2E_WORDS)
         if r < 0.25:
